@@ -51,6 +51,15 @@ type Scenario struct {
 	// lost, so the events sent to it (up to 150: more than its queue holds)
 	// wait in its pipeline meanwhile
 	IdleSub bool `json:"idle_sub,omitempty"`
+	// PeerCalls: after the events the peer sends this many frames of type Call
+	// addressed like the first subscription's signal. A subscriber with room
+	// receives them like events; for one without room the endpoint answers by
+	// itself (one more write, which can fail like any other)
+	PeerCalls int `json:"peer_calls,omitempty"`
+	// BlockingCallback: the first disconnect callback does not return until the
+	// program has collected the outcome of its pending calls and subscriptions
+	// (it reports on a channel which is read afterwards)
+	BlockingCallback bool `json:"blocking_callback,omitempty"`
 }
 
 // Case is a scenario; Only restricts the run to one fault (replay files).
@@ -82,6 +91,12 @@ func genCase(t *rapid.T) Case {
 			sc.IdleSub = true
 			sc.Events = rapid.SampledFrom([]int{3, 50, 101, 102, 150}).Draw(t, "backlog")
 		}
+	}
+	if sc.Subs > 0 && rapid.IntRange(0, 2).Draw(t, "peercalls") == 0 {
+		sc.PeerCalls = rapid.IntRange(1, 3).Draw(t, "npeercalls")
+	}
+	if sc.Callbacks > 0 && rapid.IntRange(0, 2).Draw(t, "blockingcb") == 0 {
+		sc.BlockingCallback = true
 	}
 	sc.CloseErr = rapid.IntRange(0, 4).Draw(t, "closeerr") == 0
 	sc.MaxRead = rapid.SampledFrom([]int{0, 5, 13, 28}).Draw(t, "maxread")
@@ -177,9 +192,18 @@ func run(sc Scenario, fault *hio.Fault, localCloseAt int) runResult {
 	defer ep.Close()
 
 	cbCounts := make([]int32, sc.Callbacks)
+	collected := make(chan struct{})
+	var collectedOnce sync.Once
+	collect := func() { collectedOnce.Do(func() { close(collected) }) }
+	defer collect()
 	for i := range cbCounts {
 		i := i
-		client.OnDisconnect(func(err error) { atomic.AddInt32(&cbCounts[i], 1) })
+		client.OnDisconnect(func(err error) {
+			atomic.AddInt32(&cbCounts[i], 1)
+			if i == 0 && sc.BlockingCallback {
+				<-collected
+			}
+		})
 	}
 	subClosed := make([]chan struct{}, sc.Subs)
 	subEvents := make([]int32, sc.Subs)
@@ -202,6 +226,9 @@ func run(sc Scenario, fault *hio.Fault, localCloseAt int) runResult {
 	}
 	for i := 0; i < sc.Events; i++ {
 		s.Feed(mkFrame(qnet.Event, uint32(1000+i), 1, 1, 200, []byte{byte(i), 2, 3, 4, 5}))
+	}
+	for i := 0; i < sc.PeerCalls; i++ {
+		s.Feed(mkFrame(qnet.Call, uint32(5000+i), 1, 1, 200, []byte{byte(i)}))
 	}
 	outcomes := make([]callOutcome, len(sc.Calls))
 	done := make([]chan struct{}, len(sc.Calls))
@@ -332,6 +359,8 @@ func run(sc Scenario, fault *hio.Fault, localCloseAt int) runResult {
 			return res
 		}
 	}
+	// calls and subscriptions have been collected: a callback which waited for that may go on
+	collect()
 	for i := range cbCounts {
 		deadline := time.Now().Add(bound)
 		for atomic.LoadInt32(&cbCounts[i]) == 0 && time.Now().Before(deadline) {
